@@ -177,4 +177,9 @@ def render(net, lex, opts=None):
                            ("," + L.sp()).join("%d-%d" % (a, b) for a, b in s["grp"]) + L.osp() + ";")
     out.extend(L.order(mul))
     out.append("")
+    if L.level and L.crlf and any("\n" in line for line in out):
+        # a file with CR LF line ends has them inside the texts that run over several lines too; now and then the line ends are
+        # mixed (statements end in CR LF, the lines of a text in LF: a file that went through two editors), as they were before
+        if L.rng.random() < 0.75:
+            return "\r\n".join(line.replace("\n", "\r\n") for line in out)
     return L.eol().join(out)
